@@ -72,6 +72,10 @@ def expr(draw):
 @st.composite
 def cases(draw):
     n_il, n_xl, ns = draw(st.integers(2, 8)), draw(st.integers(2, 8)), draw(st.one_of(st.integers(2, 12), st.integers(13, 70)))
+    if draw(st.integers(0, 7)) == 0:
+        # 128*k traces: every stored header array fills whole 512-byte pages
+        n_il, n_xl = draw(st.sampled_from([(8, 16), (16, 8), (4, 32), (16, 16), (2, 64)]))
+        ns = min(ns, 10)
     src = draw(sources.segy_source(geom="regular", dims=(n_il, n_xl), max_ns=12, allow_mid=False))
     src["ns"] = ns
     src["values"] = {"kind": "gauss", "vseed": draw(st.integers(0, 10 ** 6))}   # distinct lines: positions identifiable
